@@ -552,7 +552,17 @@ def gen_workflow(ev):
             or "detached = True" not in b2:
         raise TranslatorError("_resolve_supply_file: undeclared branch changed")
     b3 = [ast.unparse(s) for s in br2.orelse]
-    if b3[0] != "state = file.get_state()" or not b3[1].startswith("if state == FileState.VOLATILE:\n    raise GraphError("):
+    vol = br2.orelse[1] if len(br2.orelse) > 1 else None
+    # reuse branch: `state = file.get_state()`, then `if state == FileState.VOLATILE:` whose body only
+    # looks up what the message needs (`producer = file.creator()`, optional) and raises GraphError
+    # (the text of the message is not part of the decision logic), then the forbidden-target check.
+    ok = (b3[0] == "state = file.get_state()" and isinstance(vol, ast.If)
+          and ast.unparse(vol.test) == "state == FileState.VOLATILE" and not vol.orelse
+          and isinstance(vol.body[-1], ast.Raise)
+          and isinstance(vol.body[-1].exc, ast.Call) and ast.unparse(vol.body[-1].exc.func) == "GraphError"
+          and all(ast.unparse(x) == "producer = file.creator()" for x in vol.body[:-1])
+          and b3[2:] == ["self._raise_if_forbidden_target(path, state)"])
+    if not ok:
         raise TranslatorError("_resolve_supply_file: reuse branch changed")
     if texts[-1] != "return (file, state, detached, new_relation)":
         raise TranslatorError("_resolve_supply_file: return changed")
